@@ -28,6 +28,7 @@ impl<R: Read + Send> ChunkIter<R> {
         let iter = match config.chunker() {
             Chunker::Rabin => {
                 let poly = config.poly()?;
+                rabin::check_rabin_polynomial(poly)?;
                 let rabin = Rabin64::new_with_polynom(6, &poly);
                 Self::Rabin(Box::new(RabinChunkIter::new(
                     rabin,
